@@ -107,12 +107,37 @@ def describe(job, rec, jump, variant):
     return d
 
 
+def heap_model_check(work, tier):
+    """TLC on MCRawLRUHeap: Safe / WF / Reachable / Accounted / NoLeak / Refines with panics at every user-code call point"""
+    out = []
+    for (cap, puts, panics, keys) in ([(1, 3, 1, 2), (2, 3, 1, 2)] if tier == 'quick' else [(1, 4, 2, 3), (2, 4, 2, 3), (3, 4, 1, 3)]):
+        cfg = work.path('heap-%d-%d-%d.cfg' % (cap, puts, panics))
+        vlib.write_cfg(cfg, 'MCSpec', dict(Keys=set(range(1, keys + 1)), Cap=cap, MaxPuts=puts, MaxPanics=panics),
+                       invariants=['Safe', 'WF', 'Reachable', 'Accounted', 'NoLeak', 'Refines'])
+        o, rc, wall = vlib.run_tlc('MCRawLRUHeap', cfg, work.dir, 'heap-%d-%d-%d' % (cap, puts, panics), workers=4, xmx='8g')
+        s = vlib.tlc_summary(o)
+        if rc != 0 or s['errors'] or s['distinct'] == 0:
+            raise ToolError('MCRawLRUHeap failed: %s' % s['errors'])
+        out.append(dict(cap=cap, max_puts=puts, max_panics=panics, keys=keys, states=s['distinct'], transitions=s['generated'], wall_s=round(wall, 1)))
+    return out
+
+
 def validate_shard(args):
     job, shard, prop, work, variant = args
     kd = KINDS[job['kind']]
     tag = job['tag'] + '-tv'
     out = []
     cur = shard
+    if prop == 'HEAP':
+        cap = job['inst']['cfg']['cap']
+        rej = vlib.tlc_validate('HeapTrace', dict(Keys={1, 2, 3}, Cap=cap, MaxPuts=24, MaxPanics=1), 'HEAP', shard, work.dir, job['tag'] + '-heap')
+        if rej:
+            idx, rec = rej
+            _, jump = vlib.read_record(shard, idx)
+            d = describe(job, rec, jump, variant)
+            d['evaluated_as'] = 'HeapTrace (pointer-level model RawLRUHeap.tla cannot explain this event)'
+            out.append(d)
+        return out
     for attempt in range(6):
         rej = vlib.tlc_validate(kd['trace'], job['inst']['tc'], prop, cur, work.dir, tag)
         if rej is None:
@@ -172,9 +197,17 @@ def run_list_prop(prop, tier, seed, only_kinds=None, harness_variant='std', coll
                     return 1
                 raise ToolError('harness failed rc=%s on %s: %s' % (j['exec']['rc'], j['tag'], j['exec']['stderr']))
         tasks = [(j, s, prop, work, j['variant']) for j in jobs for s in j['shards']]
+        heap_stats = None
+        if prop in ('C18', 'C04', 'C03') and collect is None:
+            # pointer-level model: (A) TLC closes RawLRUHeap with panic points; (C) HeapTrace explains the RawLRU events
+            heap_stats = heap_model_check(work, tier)
+            if prop in ('C18', 'C04'):
+                tasks += [(j, s, 'HEAP', work, j['variant']) for j in jobs if j['kind'] == 'raw' and not j.get('random_only') for s in j['shards']]
         log('[%s] validating %d shards' % (prop, len(tasks)))
         res = vlib.pool_map(validate_shard, tasks, max(2, vlib.NCPU - 2))
         viols = [d for r in res for d in r]
+        if heap_stats:
+            jobs[0]['heap_model'] = heap_stats
         if collect is not None:
             for j in jobs:
                 j['tag'] = j['tag'] + ('' if harness_variant == 'std' else '-' + harness_variant)
@@ -298,6 +331,7 @@ def finish(prop, tier, seed, jobs, viols, t0, work, proofs=None):
         instances=[dict(name=j['tag'], kind=j['kind'], tlc=j['tlc'], exec=(j['exec']['stats'] or {}), shards=len(j.get('shards', [])))
                    for j in jobs],
         miri=[j['miri'] for j in jobs if j.get('miri')],
+        heap_model=[j['heap_model'] for j in jobs if j.get('heap_model')],
         events_by_op_and_result=by_kind,
         violations_seen=[dict(kind=d.get('kind'), instance=d.get('instance'), op=d.get('op'), path=d.get('path')) for d in viols[:20]],
     )
